@@ -182,6 +182,7 @@ def run(ctx):
         pass
     import cli_common
     cli_common.cli_suite(ctx, ctx.budget(12, 120))      # the same through the command line itself
+    cli_common.read_params_suite(ctx, ctx.budget(9, 90), want_dict=True)
     common.conclude(ctx)
 
 
